@@ -282,6 +282,34 @@ pub fn gen_graph(rng: &mut Rng, knobs: &Knobs) -> GraphData {
     rng.shuffle(&mut candidates);
     if forward && rng.pct(70) {
         candidates.sort();
+    } else if rng.pct(70) {
+        // prefer initial states from which much is reachable (otherwise most generated models
+        // would have a one- or two-state reachable set)
+        let reach_from = |g: &GraphData, s: u32| -> usize {
+            if !g.inb[s as usize] {
+                return 0;
+            }
+            let mut seen = vec![false; g.n];
+            let mut stack = vec![s];
+            seen[s as usize] = true;
+            let mut count = 0;
+            while let Some(x) = stack.pop() {
+                count += 1;
+                for t in g.in_boundary_successors(x) {
+                    if !seen[t as usize] {
+                        seen[t as usize] = true;
+                        stack.push(t);
+                    }
+                }
+            }
+            count
+        };
+        let mut scored: Vec<(usize, u32)> = candidates.iter().map(|c| (reach_from(&g, *c), *c)).collect();
+        scored.sort_by(|a, b| b.0.cmp(&a.0));
+        // keep some randomness among the best few
+        let top = scored.len().min(3);
+        rng.shuffle(&mut scored[..top]);
+        candidates = scored.into_iter().map(|(_, c)| c).collect();
     }
     for c in candidates {
         if g.inits.len() >= k {
